@@ -11,7 +11,7 @@
      Pointer     enabled ONLY to a target strictly below `lowest` (the start offset and
                  every earlier target), which becomes the new `lowest`: strictly backwards
      Root        ends the name ("ok"), unless it is longer than MaxWire octets
-     Fail(kind)  Truncated | BadLabelType | BadPointer | TooLong
+     DFail(kind)  Truncated | BadLabelType | BadPointer | TooLong
    cons = octets the name occupies AT ITS OWN POSITION: up to and including the root
    octet, or the first pointer (RFC 1035 4.1.4: a name is a sequence of labels ending in
    a zero octet or in a pointer).
@@ -35,7 +35,7 @@ Running == status = "run"
 CanRead(k) == pos + k <= WLen(buf)
 Count == At(buf, pos)
 Target == (Count - 192) * 256 + At(buf, pos + 1)
-Fail(kind) == /\ status' = kind /\ UNCHANGED <<buf, start, pos, lowest, labels, total, hops, cons>>
+DFail(kind) == /\ status' = kind /\ UNCHANGED <<buf, start, pos, lowest, labels, total, hops, cons>>
 IsErr(s) == s \notin {"run", "ok"}
 
 Label == /\ Running /\ CanRead(1) /\ Count \in 1..63 /\ CanRead(1 + Count)
@@ -58,11 +58,11 @@ FailTruncated == /\ Running
                  /\ \/ ~CanRead(1)
                     \/ CanRead(1) /\ Count \in 1..63 /\ ~CanRead(1 + Count)
                     \/ CanRead(1) /\ Count >= 192 /\ ~CanRead(2)
-                 /\ Fail("Truncated")
-FailLabelType == Running /\ CanRead(1) /\ Count \in 64..191 /\ Fail("BadLabelType")
-FailPointer == Running /\ CanRead(2) /\ Count >= 192 /\ Target >= lowest /\ Fail("BadPointer")
+                 /\ DFail("Truncated")
+FailLabelType == Running /\ CanRead(1) /\ Count \in 64..191 /\ DFail("BadLabelType")
+FailPointer == Running /\ CanRead(2) /\ Count >= 192 /\ Target >= lowest /\ DFail("BadPointer")
 (* a decoder may give up as soon as the labels read cannot fit any more, or only at the end *)
-FailTooLong == Running /\ total + 1 > MaxWire /\ Fail("TooLong")
+FailTooLong == Running /\ total + 1 > MaxWire /\ DFail("TooLong")
 
 DNext == Label \/ Pointer \/ RootL \/ FailTruncated \/ FailLabelType \/ FailPointer \/ FailTooLong
 
